@@ -93,7 +93,11 @@ func main() {
 		}
 		o.Jobs = append(o.Jobs, jr)
 	}
-	enc, _ := json.MarshalIndent(o, "", " ")
+	enc, err := json.MarshalIndent(o, "", " ")
+	if err != nil {
+		fmt.Fprintln(os.Stderr, "symgo: cannot encode results:", err)
+		os.Exit(3)
+	}
 	if *out == "" {
 		os.Stdout.Write(enc)
 	} else if err := os.WriteFile(*out, enc, 0644); err != nil {
